@@ -295,6 +295,12 @@ type mirror struct {
 }
 
 func newMirror(info *types.Info, fd *ast.FuncDecl, a, b types.Object) *mirror {
+	return newMirrorC(nil, info, fd, a, b, 0)
+}
+
+// newMirrorC also pairs the results of `x, y, ... := helper(first, second)` when the helper
+// (an unexported function of the same package) returns mirror images in those positions.
+func newMirrorC(c *Ctx, info *types.Info, fd *ast.FuncDecl, a, b types.Object, depth int) *mirror {
 	m := &mirror{info: info, fd: fd, a: a, b: b, pairs: map[types.Object]types.Object{a: b, b: a}, sideOf: map[types.Object]int{a: 0, b: 1}}
 	// locals whose single initialisers are mirror images of each other become pairs
 	type def struct {
@@ -319,6 +325,21 @@ func newMirror(info *types.Info, fd *ast.FuncDecl, a, b types.Object) *mirror {
 		}
 		return true
 	})
+	type tdef struct {
+		lhs  []ast.Expr
+		call *ast.CallExpr
+	}
+	var tdefs []tdef
+	if c != nil && depth < 2 {
+		ast.Inspect(fd.Body, func(x ast.Node) bool {
+			if lhs, rhs, ok := multiDef(x); ok && len(lhs) >= 2 {
+				if call, ok := ast.Unparen(rhs).(*ast.CallExpr); ok && len(call.Args) >= 2 {
+					tdefs = append(tdefs, tdef{lhs, call})
+				}
+			}
+			return true
+		})
+	}
 	for iter := 0; iter < 3; iter++ {
 		for i := range defs {
 			for j := range defs {
@@ -328,6 +349,59 @@ func newMirror(info *types.Info, fd *ast.FuncDecl, a, b types.Object) *mirror {
 				if m.mirrorEq(defs[i].init, defs[j].init) && m.side(defs[i].init) == 0 && m.side(defs[j].init) == 1 {
 					m.pairs[defs[i].obj], m.pairs[defs[j].obj] = defs[j].obj, defs[i].obj
 					m.sideOf[defs[i].obj], m.sideOf[defs[j].obj] = 0, 1
+				}
+			}
+		}
+		for _, td := range tdefs {
+			cf := calleeOf(info, td.call)
+			if cf == nil || cf.Exported() {
+				continue
+			}
+			hd := c.declOf(cf)
+			if hd == nil || hd.Body == nil || c.infoFor(hd) != info {
+				continue
+			}
+			var hps []types.Object
+			for _, f := range hd.Type.Params.List {
+				for _, nm := range f.Names {
+					hps = append(hps, info.Defs[nm])
+				}
+			}
+			// the pair of arguments that are mirror images (first-side, second-side)
+			for ai := 0; ai < len(td.call.Args) && ai < len(hps); ai++ {
+				for aj := 0; aj < len(td.call.Args) && aj < len(hps); aj++ {
+					if ai == aj || hps[ai] == nil || hps[aj] == nil {
+						continue
+					}
+					if !m.mirrorEq(td.call.Args[ai], td.call.Args[aj]) || m.side(td.call.Args[ai]) != 0 || m.side(td.call.Args[aj]) != 1 {
+						continue
+					}
+					hm := newMirrorC(c, info, hd, hps[ai], hps[aj], depth+1)
+					var rets []*ast.ReturnStmt
+					inspectNoLit(hd.Body, func(x ast.Node) bool {
+						if rs, ok := x.(*ast.ReturnStmt); ok {
+							rets = append(rets, rs)
+						}
+						return true
+					})
+					for ri := range td.lhs {
+						for rj := range td.lhs {
+							oi, oj := identObj(info, td.lhs[ri]), identObj(info, td.lhs[rj])
+							if ri == rj || oi == nil || oj == nil || m.pairs[oi] != nil || len(rets) == 0 {
+								continue
+							}
+							all := true
+							for _, rs := range rets {
+								if len(rs.Results) != len(td.lhs) || !hm.mirrorEq(rs.Results[ri], rs.Results[rj]) || hm.side(rs.Results[ri]) != 0 || hm.side(rs.Results[rj]) != 1 {
+									all = false
+								}
+							}
+							if all {
+								m.pairs[oi], m.pairs[oj] = oj, oi
+								m.sideOf[oi], m.sideOf[oj] = 0, 1
+							}
+						}
+					}
 				}
 			}
 		}
